@@ -119,6 +119,11 @@ def run(ctx):
     # mergers, buffets and intersectors shared by several Einsums (time / traffic formulas of the collector)
     items += [specgen_indexmath.gen(rng) for _ in range(300 if q else 2500)]
     items += [specgen_hw.gen_cascade(rng) for _ in range(60 if q else 500)]
+    # buffer hierarchies (DRAM, cache, two buffet levels, sequencers): the traffic / time formulas of the dump
+    import specgen_c12
+    for _ in range(120 if q else 900):
+        y, meta = specgen_c12.gen(rng)
+        items.append({"yaml": y, "kind": "generated-c12", "arch": True, "syms": {}})
     exprs, meta = [], []
     stats = {"trees": 0, "rejected": 0, "by_kind": {}, "untranslatable": {}, "binop_nestings": {}}
     bad = 0
